@@ -166,12 +166,12 @@ CHECKS = {
                    "of every accepted contract call equals its canonical ABI repack. (c) thorough: native fuzzing of the three "
                    "decoders with decode/encode/decode stability as oracle.",
         level_note="Variants that need the signing key are out of scope by the statement. nil/empty slices and nil/zero amounts "
-                   "are identified. Known finding C13/variant/user-block/ChangesHash is tolerated exactly (that variant kind on "
-                   "user blocks only).",
+                   "are identified. Variants cover user blocks and pooled contract receives (and the fields of their batched "
+                   "sends), delivered through the peer protocol or the JSON-RPC publication call (signed amounts).",
         technique="round-trip and differential property-based testing (rapid); native coverage-guided fuzzing of decoders",
         rule="(a) one generated block + momentum per case; non-trivial = block with >=1 non-zero optional field and >=1 descendant or "
              "content entry. (b) case = world + 1-3 rounds of unconfirmed blocks x variant kinds (quick: 3 kinds per block, "
-             "thorough: all 16); non-trivial item = (variant kind, block type) accepted by the follower's pool",
+             "thorough: all 21); non-trivial item = (variant kind, block type) accepted by the follower's pool",
         assumptions=HIST_ASSUME,
         jobs=[dict(test="TestC13Codec", quick=T(2, 10000), thorough=T(8, 40000, 0, 3000)),
               dict(test="TestC13Variants", quick=T(6, 20), thorough=T(8, 120, 0, 3000)),
